@@ -182,7 +182,11 @@ func (w *worker) work(controller inputer, jobProvider *jobProvider, readBufferSi
 						inBuf = accumBuf
 					}
 
-					job.lastEventSeq = controller.In(sourceID, sourceName, pipeline.NewOffsets(lastOffset+scanned, offsets), inBuf, isVirgin, metadataInfo)
+					seqID := controller.In(sourceID, sourceName, pipeline.NewOffsets(lastOffset+scanned, offsets), inBuf, isVirgin, metadataInfo)
+					// a refused line has no sequence number and must not lower the truncation watermark
+					if seqID != pipeline.EventSeqIDError {
+						job.lastEventSeq = seqID
+					}
 				}
 				// restore the line buffer
 				accumBuf = accumBuf[:0]
